@@ -170,6 +170,21 @@ def verify_function(reg, contract, timeout_ms, fn_ast=None, nproc=NPROC, stop_on
     fr.gen_s = time.time() - t0
     t1 = time.time()
     fr.results = solve_parallel(vcs, timeout_ms, nproc, stop_on_first=stop_on_first)
+    # a handful of undecided queries get a second, longer attempt with another seed (solver verdicts near the budget flip under CPU load;
+    # an `unknown` must never become a verdict about the code)
+    if not stop_on_first:
+        open_ = [r for r in fr.results if r['kind'] != 'cover' and r['verdict'] in ('unknown', 'timeout')]
+        if 0 < len(open_) <= 12:
+            _G['seed'] = 7
+            try:
+                again = solve_parallel([vcs[r['idx']] for r in open_], timeout_ms * 3, min(nproc, len(open_)))
+            finally:
+                _G.pop('seed', None)
+            for old, new in zip(open_, again):
+                if new['verdict'] in ('unsat', 'sat'):
+                    new['idx'] = old['idx']
+                    new['backend'] = new['backend'] + ' (second attempt)'
+                    fr.results[fr.results.index(old)] = new
     fr.solve_s = time.time() - t1
     return fr
 
@@ -479,6 +494,7 @@ def run_property(modname, tier='quick', seed=0, rebaseline=False, only=None, can
             entry[f.name] = dict(ast_sha=f.fn_hash, discharged=names)
         entry['__extra__'] = dict(discharged=sorted({r['name'] for r in rep.extra if r['verdict'] == 'unsat'}))
         entry['__files__'] = {rp: m.sha256 for rp, m in sorted(source._MODULES.items())}
+        entry['__data__'] = {rp: m.data_sha for rp, m in sorted(source._MODULES.items())}
         bl[pid] = entry
         with open(os.path.join(VERIF, 'baseline_obligations.json'), 'w') as fh:
             json.dump(bl, fh, indent=1, sort_keys=True)
@@ -610,10 +626,18 @@ def run_property(modname, tier='quick', seed=0, rebaseline=False, only=None, can
 
 def source_changed_vs_baseline(blp, rep):
     """did any source file the proof reads change since the baseline was recorded"""
-    files = blp.get('__files__', {})
-    for rp, m in source._MODULES.items():
-        if rp in files and files[rp] != m.sha256:
-            return True
+    files = blp.get('__data__')
+    if files is not None:
+        # only the DATA part of a file counts (module-level and class-level statements that are not function definitions: constants, tables, class headers);
+        # a change inside some other function of the same file says nothing about an unchanged function's obligation
+        for rp, m in source._MODULES.items():
+            if rp in files and files[rp] != m.data_sha:
+                return True
+    else:
+        files = blp.get('__files__', {})
+        for rp, m in source._MODULES.items():
+            if rp in files and files[rp] != m.sha256:
+                return True
     return any(blp.get(f.name, {}).get('ast_sha') not in (None, f.fn_hash) for f in rep.functions)
 
 
